@@ -66,8 +66,9 @@ theorem C10_solver_partial (valid : Str → Bool) (f : F) (hwf : f.wf = true)
 
 /-- The remaining link of the text-level statement.  PROVED for parenthesis-free formulas
     (`C10_preprocess_partial`, including the order-independence of the pass-1 fixed point over
-    merged capital runs) and for explicit text (`preprocess_explicit`).  NOT proved: formulas with
-    parenthesised groups in the short notation — the rewriting of `X (`, `)n X`, `)n (` by passes
+    merged capital runs), for one parenthesised parenthesis-free group with an optional count
+    (`C10_preprocess_group_partial`) and for explicit text (`preprocess_explicit`).  NOT proved:
+    formulas with items next to a group or nested groups in the short notation — the rewriting of `X (`, `)n X`, `)n (` by passes
     3 and 4 (their look-behind run `[^*+(\s]*` / look-ahead `[^+*)\s]*` crosses item boundaries)
     and the interplay of passes 1 and 2 with text inside and next to groups — and a trailing
     explicit ` * n` mixed into the short notation.  Evaluated by the driver on every generated
